@@ -32,7 +32,7 @@ Qed.
 
 (* fields no deferred command ever writes *)
 Definition rest (pr : peer_state) :=
-  (p_app_cmds pr, t_u2e pr, n_inbox pr, p_next_ent pr, p_cmdq pr).
+  (p_app_cmds pr, t_u2e pr, n_inbox pr, p_next_ent pr, p_cmdq pr, t_e2u pr).
 (* everything the panic analysis looks at, except the outbox *)
 Definition core (pr : peer_state) := (p_panic pr, p_ents pr, rest pr).
 
@@ -42,12 +42,14 @@ Lemma rest_inv pr pr' : rest pr' = rest pr ->
 Proof.
   unfold rest. intros H.
   repeat split.
-  - exact (f_equal (fun x => x.1.1.1.1) H).
+  - exact (f_equal (fun x => x.1.1.1.1.1) H).
+  - exact (f_equal (fun x => x.1.1.1.1.2) H).
   - exact (f_equal (fun x => x.1.1.1.2) H).
   - exact (f_equal (fun x => x.1.1.2) H).
   - exact (f_equal (fun x => x.1.2) H).
-  - exact (f_equal (fun x => x.2) H).
 Qed.
+Lemma rest_e2u pr pr' : rest pr' = rest pr -> t_e2u pr' = t_e2u pr.
+Proof. unfold rest. intros H. exact (f_equal (fun x => x.2) H). Qed.
 
 Lemma core_inv pr pr' : core pr' = core pr ->
   p_panic pr' = p_panic pr /\ p_ents pr' = p_ents pr /\ rest pr' = rest pr.
@@ -448,6 +450,8 @@ Lemma core_inbox pr pr' : core pr' = core pr -> n_inbox pr' = n_inbox pr.
 Proof. intros H. apply core_rest, rest_inv in H. tauto. Qed.
 Lemma core_next pr pr' : core pr' = core pr -> p_next_ent pr' = p_next_ent pr.
 Proof. intros H. apply core_rest, rest_inv in H. tauto. Qed.
+Lemma core_e2u pr pr' : core pr' = core pr -> t_e2u pr' = t_e2u pr.
+Proof. intros H. apply core_rest, rest_e2u in H. exact H. Qed.
 Lemma core_trans pr1 pr2 pr3 : core pr3 = core pr2 -> core pr2 = core pr1 -> core pr3 = core pr1.
 Proof. congruence. Qed.
 
@@ -830,27 +834,40 @@ Definition benign (c : cmd) : Prop :=
   | _ => True
   end.
 
+(* ... and among those, the ones that neither spawn nor (re)name an entity *)
+Definition plain (c : cmd) : Prop :=
+  match c with
+  | CSpawnSync _ _ | CInsertSync _ _ => False
+  | CSetParentSrv _ _ _ | CSetParentCli _ _ | CAppInsert _ _ _ => False
+  | CRelay _ m => match m with MAsset _ _ _ => True | _ => False end
+  | _ => True
+  end.
+Lemma plain_benign c : plain c -> benign c.
+Proof. destruct c; simpl; auto. Qed.
+
 (* everything but the command queue and the outbox *)
 Definition nocmdq (pr : peer_state) :=
-  (p_panic pr, p_ents pr, p_app_cmds pr, t_u2e pr, n_inbox pr, p_next_ent pr).
+  (p_panic pr, p_ents pr, p_app_cmds pr, t_u2e pr, n_inbox pr, p_next_ent pr, t_e2u pr).
 
 Lemma nocmdq_inv pr pr' : nocmdq pr' = nocmdq pr ->
   p_panic pr' = p_panic pr /\ p_ents pr' = p_ents pr /\ p_app_cmds pr' = p_app_cmds pr /\
   t_u2e pr' = t_u2e pr /\ n_inbox pr' = n_inbox pr /\ p_next_ent pr' = p_next_ent pr.
 Proof.
   unfold nocmdq. intros H. repeat split.
-  - exact (f_equal (fun x => x.1.1.1.1.1) H).
+  - exact (f_equal (fun x => x.1.1.1.1.1.1) H).
+  - exact (f_equal (fun x => x.1.1.1.1.1.2) H).
   - exact (f_equal (fun x => x.1.1.1.1.2) H).
   - exact (f_equal (fun x => x.1.1.1.2) H).
   - exact (f_equal (fun x => x.1.1.2) H).
   - exact (f_equal (fun x => x.1.2) H).
-  - exact (f_equal (fun x => x.2) H).
 Qed.
+Lemma nocmdq_e2u pr pr' : nocmdq pr' = nocmdq pr -> t_e2u pr' = t_e2u pr.
+Proof. unfold nocmdq. intros H. exact (f_equal (fun x => x.2) H). Qed.
 Lemma core_nocmdq pr pr' : core pr' = core pr -> nocmdq pr' = nocmdq pr.
 Proof.
   intros H. unfold nocmdq.
   rewrite (core_panic _ _ H), (core_ents _ _ H), (core_app _ _ H), (core_u2e _ _ H),
-    (core_inbox _ _ H), (core_next _ _ H). reflexivity.
+    (core_inbox _ _ H), (core_next _ _ H), (core_e2u _ _ H). reflexivity.
 Qed.
 Lemma foldl_nocmdq {B} (f : peer_state -> B -> peer_state) l pr :
   (forall a x, nocmdq (f a x) = nocmdq a) -> nocmdq (foldl f pr l) = nocmdq pr.
@@ -873,7 +890,7 @@ Proof.
   repeat case_match; reflexivity.
 Qed.
 Lemma fix_system_cmdq (P : cmd -> Prop) pr k last trig wo comps :
-  (forall c, benign c -> P c) -> cmdq_all P pr -> cmdq_all P (fix_system pr k last trig wo comps).
+  (forall c, plain c -> P c) -> cmdq_all P pr -> cmdq_all P (fix_system pr k last trig wo comps).
 Proof.
   intros HP. unfold fix_system. apply foldl_cmdq_all. intros a [e en] Ha. cbv beta iota.
   repeat case_match; try exact Ha. apply push_cmd_all; [exact Ha|apply HP; exact I].
@@ -890,7 +907,7 @@ Proof.
   intros a [conn c]. cbv beta iota. repeat case_match; reflexivity.
 Qed.
 Lemma client_connected_cmdq (P : cmd -> Prop) pr k :
-  (forall c, benign c -> P c) -> cmdq_all P pr -> cmdq_all P (client_connected pr k).
+  (forall c, plain c -> P c) -> cmdq_all P pr -> cmdq_all P (client_connected pr k).
 Proof.
   intros HP H. unfold client_connected. cbv zeta. apply foldl_cmdq_all; [|exact H].
   intros a [conn c] Ha. cbv beta iota.
@@ -902,7 +919,7 @@ Proof. unfold verify_client_connected. repeat case_match; reflexivity. Qed.
 Lemma verify_out pr k : p_out (verify_client_connected pr k) = p_out pr.
 Proof. unfold verify_client_connected. repeat case_match; reflexivity. Qed.
 Lemma verify_cmdq (P : cmd -> Prop) pr k :
-  (forall c, benign c -> P c) -> cmdq_all P pr -> cmdq_all P (verify_client_connected pr k).
+  (forall c, plain c -> P c) -> cmdq_all P pr -> cmdq_all P (verify_client_connected pr k).
 Proof.
   intros HP H. unfold verify_client_connected.
   repeat case_match; try exact H. apply push_cmd_all; [exact H|apply HP; exact I].
@@ -1110,9 +1127,9 @@ Proof.
     reflexivity.
 Qed.
 Lemma created_body_cmdq (P : cmd -> Prop) server k pr e :
-  (forall c, benign c -> P c) -> cmdq_all P pr -> cmdq_all P (created_body server k pr e).
+  (forall e, P (CInsertSync e e)) -> cmdq_all P pr -> cmdq_all P (created_body server k pr e).
 Proof.
-  intros HP H. unfold created_body. cbv zeta. apply push_cmd_all; [|apply HP; exact I].
+  intros HP H. unfold created_body. cbv zeta. apply push_cmd_all; [|apply HP].
   destruct server.
   - eapply cmdq_all_ext; [|exact H]. change (p_cmdq (broadcast pr (MSpawn e)) = p_cmdq pr).
     apply core_cmdq, broadcast_core.
@@ -1134,7 +1151,7 @@ Proof.
   rewrite created_body_fixed. exact Ha.
 Qed.
 Lemma entity_created_cmdq (P : cmd -> Prop) server pr k last :
-  (forall c, benign c -> P c) -> cmdq_all P pr -> cmdq_all P (entity_created server pr k last).
+  (forall e, P (CInsertSync e e)) -> cmdq_all P pr -> cmdq_all P (entity_created server pr k last).
 Proof.
   intros HP H. rewrite entity_created_eq. apply foldl_cmdq_all; [|exact H].
   intros a [e en] Ha. cbv beta iota. destruct (newly_marked last en); [|exact Ha].
@@ -1186,12 +1203,15 @@ Qed.
 
 (* commands a client generates for message m *)
 Definition cli_gen (pr : peer_state) (m : msg) (c : cmd) : Prop :=
-  benign c \/
+  plain c \/
+  (exists u, m = MSpawn u /\ c = CSpawnSync (p_next_ent pr) u) \/
   exists cu pu ce pe, m = MParented cu pu /\ t_u2e pr !! cu = Some ce /\ t_u2e pr !! pu = Some pe /\
                       c = CSetParentCli ce pe.
 (* commands the host generates for message m from client `from` *)
-Definition srv_gen (from : peer) (m : msg) (c : cmd) : Prop :=
-  benign c \/ exists cu pu, m = MParented cu pu /\ c = CSetParentSrv from cu pu.
+Definition srv_gen (pr : peer_state) (from : peer) (m : msg) (c : cmd) : Prop :=
+  plain c \/
+  (exists u, m = MSpawn u /\ c = CSpawnSync (p_next_ent pr) u) \/
+  exists cu pu, m = MParented cu pu /\ c = CSetParentSrv from cu pu.
 
 Lemma client_received_pollfixed pr k m : pollfixed (client_received pr k m) = pollfixed pr.
 Proof.
@@ -1206,13 +1226,14 @@ Lemma client_received_cmdq (P : cmd -> Prop) pr k m :
   (forall c, cli_gen pr m c -> P c) -> cmdq_all P pr -> cmdq_all P (client_received pr k m).
 Proof.
   intros HP H.
-  assert (Hb : forall c, benign c -> P c) by (intros c Hc; apply HP; left; exact Hc).
+  assert (Hb : forall c, plain c -> P c) by (intros c Hc; apply HP; left; exact Hc).
   destruct m; simpl.
   - case_match; [exact H|].
-    eapply cmdq_all_intro; [simpl; reflexivity|]. apply cmdq_push_; [exact H|apply Hb; exact I].
+    eapply cmdq_all_intro; [simpl; reflexivity|]. apply cmdq_push_; [exact H|].
+    apply HP. right. left. exists u. auto.
   - destruct (t_u2e pr !! c) as [ce|] eqn:Ec; [|exact H].
     destruct (t_u2e pr !! p) as [pe|] eqn:Ep; [|exact H].
-    apply push_cmd_all; [exact H|]. apply HP. right. exists c, p, ce, pe. auto.
+    apply push_cmd_all; [exact H|]. apply HP. right. right. exists c, p, ce, pe. auto.
   - repeat case_match; try exact H.
     eapply cmdq_all_intro; [simpl; reflexivity|]. apply cmdq_push_; [exact H|apply Hb; exact I].
   - case_match; [|exact H]. apply push_cmd_all; [exact H|apply Hb; exact I].
@@ -1255,14 +1276,15 @@ Proof.
 Qed.
 
 Lemma server_received_cmdq (P : cmd -> Prop) pr k from m :
-  (forall c, srv_gen from m c -> P c) -> cmdq_all P pr -> cmdq_all P (server_received pr k from m).
+  (forall c, srv_gen pr from m c -> P c) -> cmdq_all P pr -> cmdq_all P (server_received pr k from m).
 Proof.
   intros HP H.
-  assert (Hb : forall c, benign c -> P c) by (intros c Hc; apply HP; left; exact Hc).
+  assert (Hb : forall c, plain c -> P c) by (intros c Hc; apply HP; left; exact Hc).
   destruct m; simpl; try exact H.
   - eapply cmdq_all_ext; [apply (core_cmdq _ _ (relay_except_core _ _ _))|].
-    eapply cmdq_all_intro; [simpl; reflexivity|]. apply cmdq_push_; [exact H|apply Hb; exact I].
-  - apply push_cmd_all; [exact H|]. apply HP. right. exists c, p. auto.
+    eapply cmdq_all_intro; [simpl; reflexivity|]. apply cmdq_push_; [exact H|].
+    apply HP. right. left. exists u. auto.
+  - apply push_cmd_all; [exact H|]. apply HP. right. right. exists c, p. auto.
   - eapply cmdq_all_ext; [apply (core_cmdq _ _ (relay_except_core _ _ _))|].
     repeat case_match; try exact H.
     eapply cmdq_all_intro; [simpl; reflexivity|]. apply cmdq_push_; [exact H|apply Hb; exact I].
@@ -1615,7 +1637,7 @@ Section GI.
     intros (H1 & H2 & H3 & H4).
     pose proof (fixed_inv _ _ (entity_created_fixed server pr k last)) as (_ & He & Ha & Hi & Hn).
     repeat split.
-    - apply entity_created_cmdq; assumption.
+    - apply entity_created_cmdq; [intros e; apply Hb; exact I|exact H1].
     - eapply app_all_ext; [exact Ha|exact H2].
     - eapply inbox_all_ext; [exact Hi|exact H3].
     - unfold GS in H4 |- *. destruct with_u2e; [|exact I]. apply entity_created_u2e_ok. exact H4.
@@ -1635,7 +1657,8 @@ Section GI.
     pose proof (pollfixed_inv _ _ (client_received_pollfixed pr k m)) as (_ & He & Ha & Hi).
     repeat split.
     - apply client_received_cmdq; [|exact H1].
-      intros c [Hc|(cu & pu & ce & pe' & -> & Hcu & Hpu & ->)]; [apply Hb; exact Hc|].
+      intros c [Hc|[(u & -> & ->)|(cu & pu & ce & pe' & -> & Hcu & Hpu & ->)]];
+        [apply Hb, plain_benign; exact Hc|apply Hb; exact I|].
       eapply Hcli; eassumption.
     - eapply app_all_ext; [exact Ha|exact H2].
     - eapply inbox_all_ext; [exact Hi|exact H3].
@@ -1648,7 +1671,8 @@ Section GI.
     pose proof (pollfixed_inv _ _ (server_received_pollfixed pr k from m)) as (_ & He & Ha & Hi).
     repeat split.
     - apply server_received_cmdq; [|exact H1].
-      intros c [Hc|(cu & pu & -> & ->)]; [apply Hb; exact Hc|]. apply Hsrv. exact Hm.
+      intros c [Hc|[(u & -> & ->)|(cu & pu & -> & ->)]];
+        [apply Hb, plain_benign; exact Hc|apply Hb; exact I|]. apply Hsrv. exact Hm.
     - eapply app_all_ext; [exact Ha|exact H2].
     - eapply inbox_all_ext; [exact Hi|exact H3].
     - unfold GS in H4 |- *. destruct with_u2e; [|exact I]. apply server_received_u2e_ok. exact H4.
@@ -1675,7 +1699,7 @@ Section GI.
     intros HI.
     assert (Hfix : forall trig wo comps, GI (fix_system pr k last trig wo comps)).
     { intros trig wo comps. eapply GI_nocmdq; [apply fix_system_nocmdq| |exact HI].
-      apply fix_system_cmdq; [exact Hb|apply HI]. }
+      apply fix_system_cmdq; [intros c Hc; apply Hb, plain_benign; exact Hc|apply HI]. }
     destruct s; simpl; try apply Hfix;
       try (eapply GI_core; [|exact HI]; first [reflexivity|apply react_assets_core|apply process_assets_core]).
     - eapply GI_sub; [apply entity_removed_server_nou2e|apply entity_removed_server_sub|exact HI].
@@ -1684,12 +1708,12 @@ Section GI.
     - eapply GI_core; [apply react_components_core|exact HI].
     - eapply GI_core; [apply promote_reader_core|exact HI].
     - eapply GI_nocmdq; [apply client_connected_nocmdq| |exact HI].
-      apply client_connected_cmdq; [exact Hb|apply HI].
+      apply client_connected_cmdq; [intros c Hc; apply Hb, plain_benign; exact Hc|apply HI].
     - apply (server_poll_inv GI M); [intros a Ha; apply Ha| | |exact HI].
       + intros a from m rest_ Ha Hl. eapply GI_pop; eassumption.
       + intros a from m Ha Hm. apply GI_server_received; assumption.
     - eapply GI_nocmdq; [apply verify_nocmdq| |exact HI].
-      apply verify_cmdq; [exact Hb|apply HI].
+      apply verify_cmdq; [intros c Hc; apply Hb, plain_benign; exact Hc|apply HI].
     - eapply GI_sub; [apply entity_removed_client_nou2e|apply entity_removed_client_sub|exact HI].
     - apply GI_created. exact HI.
     - eapply GI_core; [apply entity_parented_client_core|exact HI].
@@ -1760,4 +1784,1149 @@ Proof.
     + intros a m Ha _. eapply out_all_ext; [apply client_received_out|exact Ha].
   - eapply out_all_ext; [apply sync_detect_out|exact H].
   - apply foldl_out_all; [|exact H]. intros a x _ Ha. exact Ha.
+Qed.
+
+(* ================================================================================================ *)
+(* Identities: which uuid an entity id stands for, and parent links between different uuids          *)
+(* ================================================================================================ *)
+
+(* commands waiting in some system's buffer, or (during a flush) in the list being applied *)
+Definition queued_ (q : gmap N (list cmd)) (extra : list cmd) (c : cmd) : Prop :=
+  c ∈ extra \/ exists k cs, q !! k = Some cs /\ c ∈ cs.
+Definition queued (pr : peer_state) (extra : list cmd) (c : cmd) : Prop := queued_ (p_cmdq pr) extra c.
+
+Lemma queued_push_ q extra k c0 c :
+  queued_ (<[k := default [] (q !! k) ++ [c0]]> q) extra c <-> queued_ q extra c \/ c = c0.
+Proof.
+  unfold queued_. split.
+  - intros [H|(k' & cs & Hl & Hin)]; [left; left; exact H|].
+    destruct (decide (k' = k)) as [->|Hne].
+    + rewrite lookup_insert in Hl. injection Hl as <-. apply elem_of_app in Hin as [Hin|Hin].
+      * destruct (q !! k) as [cs0|] eqn:E; simpl in Hin; [|inversion Hin].
+        left. right. exists k, cs0. split; [exact E|exact Hin].
+      * apply elem_of_list_singleton in Hin. right. exact Hin.
+    + rewrite lookup_insert_ne in Hl by congruence. left. right. exists k', cs. split; assumption.
+  - intros [[H|(k' & cs & Hl & Hin)]| ->].
+    + left. exact H.
+    + right. destruct (decide (k' = k)) as [->|Hne].
+      * exists k, (cs ++ [c0]). rewrite lookup_insert, Hl. split; [reflexivity|].
+        apply elem_of_app. left. exact Hin.
+      * exists k', cs. rewrite lookup_insert_ne by congruence. split; assumption.
+    + right. exists k, (default [] (q !! k) ++ [c0]). rewrite lookup_insert. split; [reflexivity|].
+      apply elem_of_app. right. apply elem_of_list_singleton. reflexivity.
+Qed.
+Lemma queued_push pr extra k c0 c :
+  queued (push_cmd pr k c0) extra c <-> queued pr extra c \/ c = c0.
+Proof. apply queued_push_. Qed.
+
+Lemma queued_take_ q k cs c :
+  q !! k = Some cs -> queued_ (delete k q) cs c <-> queued_ q [] c.
+Proof.
+  intros Hk. unfold queued_. split.
+  - intros [H|(k' & cs' & Hl & Hin)]; right.
+    + exists k, cs. split; assumption.
+    + apply lookup_delete_Some in Hl as [_ Hl]. exists k', cs'. split; assumption.
+  - intros [H|(k' & cs' & Hl & Hin)]; [inversion H|].
+    destruct (decide (k' = k)) as [->|Hne].
+    + rewrite Hk in Hl. injection Hl as <-. left. exact Hin.
+    + right. exists k', cs'. rewrite lookup_delete_ne by congruence. split; assumption.
+Qed.
+
+Lemma queued_tail_ q c0 cs c : queued_ q cs c -> queued_ q (c0 :: cs) c.
+Proof. intros [H|H]; [left; right; exact H|right; exact H]. Qed.
+Lemma queued_head_ q c0 cs : queued_ q (c0 :: cs) c0.
+Proof. left. left. Qed.
+
+(* what is known about entity id e: entity_to_uuid, its SyncEntity component, a pending spawn *)
+Definition fact (pr : peer_state) (extra : list cmd) (e : ent) (u : uuid) : Prop :=
+  t_e2u pr !! e = Some u \/
+  (exists en, p_ents pr !! e = Some en /\ en_sync en = Some u) \/
+  queued pr extra (CSpawnSync e u).
+
+(* e stands for uuid u: a script entity stands for its own id; everything known about e agrees *)
+Definition ident (pr : peer_state) (extra : list cmd) (e : ent) (u : uuid) : Prop :=
+  (e < SCRIPT_LIMIT -> u = e) /\ (forall u', fact pr extra e u' -> u' = u).
+
+Definition distinct_ids (pr : peer_state) (extra : list cmd) (a b : ent) : Prop :=
+  exists u v, u <> v /\ ident pr extra a u /\ ident pr extra b v.
+
+Definition old (pr : peer_state) (e : ent) : Prop := e < p_next_ent pr.
+
+Record link_inv (pr : peer_state) (extra : list cmd) : Prop := {
+  li_fc : forall e, old pr e -> exists u, ident pr extra e u;
+  li_uk : forall u e, t_u2e pr !! u = Some e -> old pr e /\ ident pr extra e u;
+  li_links : forall e en q t, p_ents pr !! e = Some en -> en_parent en = Some (q, t) ->
+             old pr q /\ distinct_ids pr extra e q;
+  li_live : forall e en, p_ents pr !! e = Some en -> old pr e;
+  li_e2u : forall e u, t_e2u pr !! e = Some u -> old pr e;
+  li_spawn : forall e u, queued pr extra (CSpawnSync e u) -> SCRIPT_LIMIT <= e /\ old pr e;
+  li_isync : forall e u, queued pr extra (CInsertSync e u) -> u = e /\ e < SCRIPT_LIMIT;
+  li_cli : forall c p, queued pr extra (CSetParentCli c p) ->
+           old pr c /\ old pr p /\ distinct_ids pr extra c p;
+  li_next : SCRIPT_LIMIT <= p_next_ent pr;
+}.
+
+(* one step: nothing new is learnt about existing ids except that a script entity is itself *)
+Definition facts_shrink (pr : peer_state) (extra : list cmd) (pr' : peer_state) (extra' : list cmd) : Prop :=
+  forall e u, old pr e -> fact pr' extra' e u -> fact pr extra e u \/ (e < SCRIPT_LIMIT /\ u = e).
+
+Lemma ident_mono pr extra pr' extra' e u :
+  facts_shrink pr extra pr' extra' -> old pr e -> ident pr extra e u -> ident pr' extra' e u.
+Proof.
+  intros Hs Ho [H1 H2]. split; [exact H1|].
+  intros u' Hf. destruct (Hs e u' Ho Hf) as [Hf'|[Hlt ->]]; [apply H2; exact Hf'|].
+  symmetry. apply H1. exact Hlt.
+Qed.
+Lemma distinct_mono pr extra pr' extra' a b :
+  facts_shrink pr extra pr' extra' -> old pr a -> old pr b ->
+  distinct_ids pr extra a b -> distinct_ids pr' extra' a b.
+Proof.
+  intros Hs Ha Hb (u & v & Hne & Hu & Hv). exists u, v.
+  split; [exact Hne|split; eapply ident_mono; eassumption].
+Qed.
+
+Lemma link_inv_step pr extra pr' extra' :
+  link_inv pr extra ->
+  p_next_ent pr <= p_next_ent pr' ->
+  facts_shrink pr extra pr' extra' ->
+  (forall e, ~ old pr e -> old pr' e -> exists u, ident pr' extra' e u) ->
+  (forall u e, t_u2e pr' !! u = Some e ->
+     t_u2e pr !! u = Some e \/ (old pr' e /\ ident pr' extra' e u)) ->
+  (forall e en q t, p_ents pr' !! e = Some en -> en_parent en = Some (q, t) ->
+     (exists en0 t0, p_ents pr !! e = Some en0 /\ en_parent en0 = Some (q, t0)) \/
+     (old pr e /\ old pr q /\ distinct_ids pr extra e q)) ->
+  (forall e en, p_ents pr' !! e = Some en -> (exists en0, p_ents pr !! e = Some en0) \/ old pr' e) ->
+  (forall e u, t_e2u pr' !! e = Some u -> (exists u0, t_e2u pr !! e = Some u0) \/ old pr' e) ->
+  (forall e u, queued pr' extra' (CSpawnSync e u) ->
+     queued pr extra (CSpawnSync e u) \/ (SCRIPT_LIMIT <= e /\ old pr' e)) ->
+  (forall e u, queued pr' extra' (CInsertSync e u) ->
+     queued pr extra (CInsertSync e u) \/ (u = e /\ e < SCRIPT_LIMIT)) ->
+  (forall c p, queued pr' extra' (CSetParentCli c p) ->
+     queued pr extra (CSetParentCli c p) \/ (old pr c /\ old pr p /\ distinct_ids pr extra c p)) ->
+  link_inv pr' extra'.
+Proof.
+  intros HI Hnext Hs Hnew Huk Hlinks Hlive He2u Hspawn Hisync Hcli.
+  assert (Hold : forall e, old pr e -> old pr' e) by (unfold old; intros e He; lia).
+  constructor.
+  - intros e He. destruct (decide (e < p_next_ent pr)) as [Ho|Hn].
+    + destruct (li_fc _ _ HI e Ho) as [u Hu]. exists u. eapply ident_mono; eassumption.
+    + apply Hnew; assumption.
+  - intros u e Hl. destruct (Huk u e Hl) as [H|H]; [|exact H].
+    destruct (li_uk _ _ HI u e H) as [Ho Hi]. split; [apply Hold; exact Ho|].
+    eapply ident_mono; eassumption.
+  - intros e en q t Hl Hp. destruct (Hlinks e en q t Hl Hp) as [(en0 & t0 & Hl0 & Hp0)|(Ho & Hq & Hd)].
+    + destruct (li_links _ _ HI e en0 q t0 Hl0 Hp0) as [Hq Hd].
+      split; [apply Hold; exact Hq|]. eapply distinct_mono; try eassumption.
+      eapply li_live; eassumption.
+    + split; [apply Hold; exact Hq|]. eapply distinct_mono; eassumption.
+  - intros e en Hl. destruct (Hlive e en Hl) as [[en0 H0]|H]; [|exact H].
+    apply Hold. eapply li_live; eassumption.
+  - intros e u Hl. destruct (He2u e u Hl) as [[u0 H0]|H]; [|exact H].
+    apply Hold. eapply li_e2u; eassumption.
+  - intros e u Hq. destruct (Hspawn e u Hq) as [H|H]; [|exact H].
+    destruct (li_spawn _ _ HI e u H) as [H1 H2]. split; [exact H1|apply Hold; exact H2].
+  - intros e u Hq. destruct (Hisync e u Hq) as [H|H]; [|exact H]. eapply li_isync; eassumption.
+  - intros c p Hq. destruct (Hcli c p Hq) as [H|(Hc & Hp & Hd)].
+    + destruct (li_cli _ _ HI c p H) as (Hc & Hp & Hd).
+      split; [apply Hold; exact Hc|split; [apply Hold; exact Hp|]]. eapply distinct_mono; eassumption.
+    + split; [apply Hold; exact Hc|split; [apply Hold; exact Hp|]]. eapply distinct_mono; eassumption.
+  - pose proof (li_next _ _ HI). lia.
+Qed.
+
+Definition tracked (c : cmd) : Prop :=
+  match c with CSpawnSync _ _ | CInsertSync _ _ | CSetParentCli _ _ => True | _ => False end.
+
+(* entities may disappear or change components, not their SyncEntity or Parent (up to its tick) *)
+Definition ents_shrink (m m' : gmap ent entity) : Prop :=
+  forall e en', m' !! e = Some en' ->
+    exists en, m !! e = Some en /\ en_sync en' = en_sync en /\
+               (forall q t, en_parent en' = Some (q, t) -> exists t0, en_parent en = Some (q, t0)).
+
+Lemma ents_shrink_refl m : ents_shrink m m.
+Proof. intros e en H. exists en. split; [exact H|split; [reflexivity|]]. intros q t Hp. exists t. exact Hp. Qed.
+
+Lemma link_inv_shrink pr extra pr' extra' :
+  link_inv pr extra ->
+  p_next_ent pr' = p_next_ent pr ->
+  (forall e u, t_e2u pr' !! e = Some u -> t_e2u pr !! e = Some u) ->
+  (forall u e, t_u2e pr' !! u = Some e -> t_u2e pr !! u = Some e) ->
+  ents_shrink (p_ents pr) (p_ents pr') ->
+  (forall c, tracked c -> queued pr' extra' c -> queued pr extra c) ->
+  link_inv pr' extra'.
+Proof.
+  intros HI Hn He2u Hu2e Hents Hq.
+  apply (link_inv_step pr extra); try assumption.
+  - rewrite Hn. lia.
+  - intros e u _ [H|[(en' & Hl & Hs)|H]]; left.
+    + left. apply He2u. exact H.
+    + right. left. destruct (Hents e en' Hl) as (en & Hl0 & Hs0 & _). exists en.
+      split; [exact Hl0|]. rewrite <- Hs0. exact Hs.
+    + right. right. apply Hq; [exact I|exact H].
+  - intros e Hno Ho. exfalso. apply Hno. unfold old in *. rewrite <- Hn. exact Ho.
+  - intros u e Hl. left. apply Hu2e. exact Hl.
+  - intros e en q t Hl Hp. left. destruct (Hents e en Hl) as (en0 & Hl0 & _ & Hp0).
+    destruct (Hp0 q t Hp) as [t0 Ht0]. exists en0, t0. split; assumption.
+  - intros e en Hl. left. destruct (Hents e en Hl) as (en0 & Hl0 & _). exists en0. exact Hl0.
+  - intros e u Hl. left. exists u. apply He2u. exact Hl.
+  - intros e u H. left. apply Hq; [exact I|exact H].
+  - intros e u H. left. apply Hq; [exact I|exact H].
+  - intros c p H. left. apply Hq; [exact I|exact H].
+Qed.
+
+(* a state that agrees on everything the link invariant looks at *)
+Lemma link_inv_core pr pr' extra : core pr' = core pr -> link_inv pr extra -> link_inv pr' extra.
+Proof.
+  intros H HI. apply (link_inv_shrink pr extra); try assumption.
+  - apply (core_next _ _ H).
+  - rewrite (core_e2u _ _ H). auto.
+  - rewrite (core_u2e _ _ H). auto.
+  - rewrite (core_ents _ _ H). apply ents_shrink_refl.
+  - intros c _. unfold queued. rewrite (core_cmdq _ _ H). auto.
+Qed.
+
+(* a newly queued tracked command that is fine in the state it is queued in *)
+Definition newcmd_ok (pr : peer_state) (extra : list cmd) (c : cmd) : Prop :=
+  match c with
+  | CSpawnSync _ _ => False
+  | CInsertSync e u => u = e /\ e < SCRIPT_LIMIT
+  | CSetParentCli c p => old pr c /\ old pr p /\ distinct_ids pr extra c p
+  | _ => True
+  end.
+
+Lemma link_inv_shrink2 pr extra pr' extra' :
+  link_inv pr extra ->
+  p_next_ent pr' = p_next_ent pr ->
+  (forall e u, t_e2u pr' !! e = Some u -> t_e2u pr !! e = Some u) ->
+  (forall u e, t_u2e pr' !! u = Some e -> t_u2e pr !! u = Some e) ->
+  ents_shrink (p_ents pr) (p_ents pr') ->
+  (forall c, tracked c -> queued pr' extra' c -> queued pr extra c \/ newcmd_ok pr extra c) ->
+  link_inv pr' extra'.
+Proof.
+  intros HI Hn He2u Hu2e Hents Hq.
+  apply (link_inv_step pr extra); try assumption.
+  - rewrite Hn. lia.
+  - intros e u _ [H|[(en' & Hl & Hs)|H]]; left.
+    + left. apply He2u. exact H.
+    + right. left. destruct (Hents e en' Hl) as (en & Hl0 & Hs0 & _). exists en.
+      split; [exact Hl0|]. rewrite <- Hs0. exact Hs.
+    + right. right. destruct (Hq (CSpawnSync e u) I H) as [H'|H']; [exact H'|contradiction].
+  - intros e Hno Ho. exfalso. apply Hno. unfold old in *. rewrite <- Hn. exact Ho.
+  - intros u e Hl. left. apply Hu2e. exact Hl.
+  - intros e en q t Hl Hp. left. destruct (Hents e en Hl) as (en0 & Hl0 & _ & Hp0).
+    destruct (Hp0 q t Hp) as [t0 Ht0]. exists en0, t0. split; assumption.
+  - intros e en Hl. left. destruct (Hents e en Hl) as (en0 & Hl0 & _). exists en0. exact Hl0.
+  - intros e u Hl. left. exists u. apply He2u. exact Hl.
+  - intros e u H. destruct (Hq (CSpawnSync e u) I H) as [H'|H']; [left; exact H'|contradiction].
+  - intros e u H. destruct (Hq (CInsertSync e u) I H) as [H'|H']; [left; exact H'|right; exact H'].
+  - intros c p H. destruct (Hq (CSetParentCli c p) I H) as [H'|H']; [left; exact H'|right; exact H'].
+Qed.
+
+Lemma queued_grows pr pr' (G : cmd -> Prop) :
+  (forall P : cmd -> Prop, (forall c, G c -> P c) -> cmdq_all P pr -> cmdq_all P pr') ->
+  forall c, queued pr' [] c -> queued pr [] c \/ G c.
+Proof.
+  intros H c [Hc|(k & cs & Hl & Hin)]; [inversion Hc|].
+  refine (H (fun c => queued pr [] c \/ G c) _ _ k cs c Hl Hin).
+  - intros c' Hc'. right. exact Hc'.
+  - intros k' cs' c' Hl' Hin'. left. right. exists k', cs'. split; assumption.
+Qed.
+
+Lemma plain_not_tracked c : plain c -> tracked c -> False.
+Proof. destruct c; simpl; auto. Qed.
+
+(* systems that only queue plain commands *)
+Lemma link_inv_pushers pr pr' :
+  nocmdq pr' = nocmdq pr -> (forall c, queued pr' [] c -> queued pr [] c \/ plain c) ->
+  link_inv pr [] -> link_inv pr' [].
+Proof.
+  intros H Hq HI. pose proof (nocmdq_e2u _ _ H) as He.
+  apply nocmdq_inv in H as (_ & Hents & _ & Hu & _ & Hn).
+  apply (link_inv_shrink pr []); try assumption.
+  - rewrite He. auto.
+  - rewrite Hu. auto.
+  - rewrite Hents. apply ents_shrink_refl.
+  - intros c Ht Hc. destruct (Hq c Hc) as [H|H]; [exact H|]. exfalso. eapply plain_not_tracked; eassumption.
+Qed.
+
+(* tracker systems *)
+Lemma entity_removed_server_e2u_sub pr e u :
+  t_e2u (entity_removed_server pr) !! e = Some u -> t_e2u pr !! e = Some u.
+Proof.
+  unfold entity_removed_server. cbv zeta.
+  set (gone := filter _ _). intros H.
+  assert (Hfold : forall l (a : peer_state),
+            t_e2u (foldl (fun pr0 u0 => broadcast (pr0 <| t_u2e := delete u0 (t_u2e pr0) |>) (MDelete u0)) a l)
+            = t_e2u a).
+  { induction l as [|x l IH]; intros a; simpl; [reflexivity|].
+    rewrite IH. rewrite (core_e2u _ _ (broadcast_core _ _)). reflexivity. }
+  rewrite Hfold in H. simpl in H. eapply foldl_delete_sub. exact H.
+Qed.
+Lemma entity_removed_client_e2u pr : t_e2u (entity_removed_client pr) = t_e2u pr.
+Proof.
+  unfold entity_removed_client. cbv zeta.
+  apply (foldl_inv (fun a => t_e2u a = t_e2u pr)); [reflexivity|].
+  intros a [u e] _ Ha. cbv beta iota. rewrite (core_e2u _ _ (send_up_core _ _)). exact Ha.
+Qed.
+
+Lemma link_inv_removed_server pr : link_inv pr [] -> link_inv (entity_removed_server pr) [].
+Proof.
+  intros HI. pose proof (nou2e_inv _ _ (entity_removed_server_nou2e pr)) as (_ & He & _ & _ & Hn & Hq).
+  apply (link_inv_shrink pr []); try assumption.
+  - apply entity_removed_server_e2u_sub.
+  - apply entity_removed_server_sub.
+  - rewrite He. apply ents_shrink_refl.
+  - intros c _. unfold queued. rewrite Hq. auto.
+Qed.
+Lemma link_inv_removed_client pr : link_inv pr [] -> link_inv (entity_removed_client pr) [].
+Proof.
+  intros HI. pose proof (nou2e_inv _ _ (entity_removed_client_nou2e pr)) as (_ & He & _ & _ & Hn & Hq).
+  apply (link_inv_shrink pr []); try assumption.
+  - rewrite entity_removed_client_e2u. auto.
+  - apply entity_removed_client_sub.
+  - rewrite He. apply ents_shrink_refl.
+  - intros c _. unfold queued. rewrite Hq. auto.
+Qed.
+
+Lemma created_body_e2u server k pr e : t_e2u (created_body server k pr e) = <[e := e]> (t_e2u pr).
+Proof.
+  unfold created_body. cbv zeta. destruct server.
+  - change (<[e := e]> (t_e2u (broadcast pr (MSpawn e))) = <[e := e]> (t_e2u pr)).
+    rewrite (core_e2u _ _ (broadcast_core _ _)). reflexivity.
+  - match goal with |- t_e2u (push_cmd (send_up ?x ?m) _ _) = _ =>
+      change (t_e2u (send_up x m) = <[e := e]> (t_e2u pr)); rewrite (core_e2u _ _ (send_up_core x m)) end.
+    reflexivity.
+Qed.
+Lemma created_body_cmdq_eq server k pr e :
+  p_cmdq (created_body server k pr e) = <[k := default [] (p_cmdq pr !! k) ++ [CInsertSync e e]]> (p_cmdq pr).
+Proof.
+  unfold created_body. cbv zeta. destruct server.
+  - change (<[k := default [] (p_cmdq (broadcast pr (MSpawn e)) !! k) ++ [CInsertSync e e]]>
+              (p_cmdq (broadcast pr (MSpawn e))) = <[k := default [] (p_cmdq pr !! k) ++ [CInsertSync e e]]> (p_cmdq pr)).
+    rewrite (core_cmdq _ _ (broadcast_core _ _)). reflexivity.
+  - match goal with |- p_cmdq (push_cmd (send_up ?x ?m) _ _) = _ =>
+      change (<[k := default [] (p_cmdq (send_up x m) !! k) ++ [CInsertSync e e]]> (p_cmdq (send_up x m))
+              = <[k := default [] (p_cmdq pr !! k) ++ [CInsertSync e e]]> (p_cmdq pr));
+      rewrite (core_cmdq _ _ (send_up_core x m)) end.
+    reflexivity.
+Qed.
+
+Lemma link_inv_created_body server k pr e en :
+  p_ents pr !! e = Some en -> e < SCRIPT_LIMIT ->
+  link_inv pr [] -> link_inv (created_body server k pr e) [].
+Proof.
+  intros Hl Hlt HI.
+  pose proof (fixed_inv _ _ (created_body_fixed server k pr e)) as (_ & He & _ & _ & Hn).
+  pose proof (created_body_e2u server k pr e) as He2u.
+  pose proof (created_body_u2e server k pr e) as Hu2e.
+  assert (Hq : forall c, queued (created_body server k pr e) [] c <-> queued pr [] c \/ c = CInsertSync e e).
+  { intros c. unfold queued. rewrite created_body_cmdq_eq. apply queued_push_. }
+  assert (Hs : facts_shrink pr [] (created_body server k pr e) []).
+  { intros x u _ [H|[(en' & Hl' & Hs')|H]].
+    - rewrite He2u in H. destruct (decide (x = e)) as [->|Hne].
+      + rewrite lookup_insert in H. injection H as <-. right. split; [exact Hlt|reflexivity].
+      + rewrite lookup_insert_ne in H by congruence. left. left. exact H.
+    - rewrite He in Hl'. left. right. left. exists en'. split; assumption.
+    - apply Hq in H as [H|H]; [|discriminate]. left. right. right. exact H. }
+  assert (Hoe : old pr e) by (eapply li_live; eassumption).
+  apply (link_inv_step pr []); try assumption.
+  - rewrite Hn. lia.
+  - intros x Hno Ho. exfalso. apply Hno. unfold old in *. rewrite <- Hn. exact Ho.
+  - intros u x H. rewrite Hu2e in H. destruct (decide (u = e)) as [->|Hne].
+    + rewrite lookup_insert in H. injection H as <-. right.
+      split; [unfold old in *; rewrite Hn; exact Hoe|].
+      destruct (li_fc _ _ HI e Hoe) as [u0 Hu0].
+      assert (u0 = e) by (apply Hu0; exact Hlt). subst u0.
+      eapply ident_mono; eassumption.
+    + rewrite lookup_insert_ne in H by congruence. left. exact H.
+  - intros x en' q t Hl' Hp. rewrite He in Hl'. left. exists en', t. split; assumption.
+  - intros x en' Hl'. rewrite He in Hl'. left. exists en'. exact Hl'.
+  - intros x u H. rewrite He2u in H. destruct (decide (x = e)) as [->|Hne].
+    + right. unfold old in *. rewrite Hn. exact Hoe.
+    + rewrite lookup_insert_ne in H by congruence. left. exists u. exact H.
+  - intros x u H. apply Hq in H as [H|H]; [left; exact H|discriminate].
+  - intros x u H. apply Hq in H as [H|H]; [left; exact H|]. injection H as -> ->. right. auto.
+  - intros c p H. apply Hq in H as [H|H]; [left; exact H|discriminate].
+Qed.
+
+Lemma link_inv_created server pr k last :
+  u2e_ok pr -> link_inv pr [] -> link_inv (entity_created server pr k last) [].
+Proof.
+  intros Hu HI. rewrite entity_created_eq.
+  refine (proj2 (foldl_inv (fun a => fixed a = fixed pr /\ link_inv a []) _ _ _ _ _));
+    [split; [reflexivity|exact HI]|].
+  intros a [e en] Hin [Ha Hla]. cbv beta iota.
+  destruct (newly_marked last en) eqn:Enm; [|split; assumption].
+  split; [rewrite created_body_fixed; exact Ha|].
+  apply fixed_inv in Ha as (_ & He & _ & _ & _).
+  unfold ents_list in Hin. apply elem_of_map_to_list in Hin.
+  apply (link_inv_created_body server k a e en); [rewrite He; exact Hin| |exact Hla].
+  destruct Hu as (_ & _ & _ & Hm). apply (Hm e en Hin).
+  unfold newly_marked in Enm. destruct (en_mark en); discriminate.
+Qed.
+
+(* allocation of a replica for uuid u: the body shared by both MSpawn handlers *)
+Lemma link_inv_alloc pr pr' k u :
+  p_next_ent pr' = p_next_ent pr + 1 ->
+  t_u2e pr' = <[u := p_next_ent pr]> (t_u2e pr) ->
+  t_e2u pr' = <[p_next_ent pr := u]> (t_e2u pr) ->
+  p_ents pr' = p_ents pr ->
+  p_cmdq pr' = <[k := default [] (p_cmdq pr !! k) ++ [CSpawnSync (p_next_ent pr) u]]> (p_cmdq pr) ->
+  link_inv pr [] -> link_inv pr' [].
+Proof.
+  intros Hn Hu2e He2u He Hcq HI. set (e := p_next_ent pr) in *.
+  assert (Hq : forall c, queued pr' [] c <-> queued pr [] c \/ c = CSpawnSync e u).
+  { intros c. unfold queued. rewrite Hcq. apply queued_push_. }
+  assert (Hfresh : ~ old pr e) by (unfold old, e; lia).
+  assert (Hs : facts_shrink pr [] pr' []).
+  { intros x v Hx [H|[(en' & Hl' & Hs')|H]].
+    - rewrite He2u in H. destruct (decide (x = e)) as [->|Hne]; [contradiction|].
+      rewrite lookup_insert_ne in H by congruence. left. left. exact H.
+    - rewrite He in Hl'. left. right. left. exists en'. split; assumption.
+    - apply Hq in H as [H|H]; [left; right; right; exact H|].
+      injection H as -> _. contradiction. }
+  assert (Hnew : ident pr' [] e u).
+  { split; [intros Hlt; pose proof (li_next _ _ HI); unfold e in Hlt; lia|].
+    intros v [H|[(en' & Hl' & Hs')|H]].
+    - rewrite He2u, lookup_insert in H. injection H as <-. reflexivity.
+    - rewrite He in Hl'. exfalso. apply Hfresh. eapply li_live; eassumption.
+    - apply Hq in H as [H|H]; [|injection H as <-; reflexivity].
+      exfalso. apply Hfresh. eapply li_spawn; eassumption. }
+  assert (Hoe : old pr' e) by (unfold old; rewrite Hn; unfold e; lia).
+  apply (link_inv_step pr []); try assumption.
+  - rewrite Hn. lia.
+  - intros x Hno Ho. assert (x = e) by (unfold old in *; rewrite Hn in Ho; unfold e; lia). subst x.
+    exists u. exact Hnew.
+  - intros v x H. rewrite Hu2e in H. destruct (decide (v = u)) as [->|Hne].
+    + rewrite lookup_insert in H. injection H as <-. right. split; assumption.
+    + rewrite lookup_insert_ne in H by congruence. left. exact H.
+  - intros x en' q t Hl' Hp. rewrite He in Hl'. left. exists en', t. split; assumption.
+  - intros x en' Hl'. rewrite He in Hl'. left. exists en'. exact Hl'.
+  - intros x v H. rewrite He2u in H. destruct (decide (x = e)) as [->|Hne].
+    + right. exact Hoe.
+    + rewrite lookup_insert_ne in H by congruence. left. exists v. exact H.
+  - intros x v H. apply Hq in H as [H|H]; [left; exact H|]. injection H as -> ->. right.
+    split; [apply (li_next _ _ HI)|exact Hoe].
+  - intros x v H. apply Hq in H as [H|H]; [left; exact H|discriminate].
+  - intros c p H. apply Hq in H as [H|H]; [left; exact H|discriminate].
+Qed.
+
+(* pushing one command onto a state whose tracked fields are those of pr *)
+Lemma link_inv_push pr pr' k c0 :
+  p_next_ent pr' = p_next_ent pr ->
+  (forall e u, t_e2u pr' !! e = Some u -> t_e2u pr !! e = Some u) ->
+  (forall u e, t_u2e pr' !! u = Some e -> t_u2e pr !! u = Some e) ->
+  p_ents pr' = p_ents pr ->
+  p_cmdq pr' = <[k := default [] (p_cmdq pr !! k) ++ [c0]]> (p_cmdq pr) ->
+  (tracked c0 -> newcmd_ok pr [] c0) ->
+  link_inv pr [] -> link_inv pr' [].
+Proof.
+  intros Hn He2u Hu2e He Hcq Hc0 HI.
+  apply (link_inv_shrink2 pr []); try assumption.
+  - rewrite He. apply ents_shrink_refl.
+  - intros c Ht Hc. unfold queued in Hc. rewrite Hcq in Hc. apply queued_push_ in Hc as [Hc| ->].
+    + left. exact Hc.
+    + right. apply Hc0. exact Ht.
+Qed.
+
+Definition msg_distinct (m : msg) : Prop := match m with MParented c p => c <> p | _ => True end.
+
+Lemma lookup_delete_sub {A} (m : gmap N A) k i x : delete k m !! i = Some x -> m !! i = Some x.
+Proof. intros H. apply lookup_delete_Some in H as [_ H]. exact H. Qed.
+
+Lemma link_inv_client_received pr k m :
+  msg_distinct m -> link_inv pr [] -> link_inv (client_received pr k m) [].
+Proof.
+  intros Hm HI. destruct m; simpl.
+  - case_match; [exact HI|].
+    apply (link_inv_alloc pr _ k u); try reflexivity. exact HI.
+  - destruct (t_u2e pr !! c) as [ce|] eqn:Ec; [|exact HI].
+    destruct (t_u2e pr !! p) as [pe'|] eqn:Ep; [|exact HI].
+    apply (link_inv_push pr _ k (CSetParentCli ce pe')); try reflexivity; auto.
+    intros _. simpl.
+    destruct (li_uk _ _ HI c ce Ec) as [Ho1 Hi1]. destruct (li_uk _ _ HI p pe' Ep) as [Ho2 Hi2].
+    split; [exact Ho1|split; [exact Ho2|]]. exists c, p. split; [exact Hm|split; assumption].
+  - destruct (t_u2e pr !! u) as [e|] eqn:Eu; [|exact HI].
+    destruct (cmd_get_entity pr e); [|exact HI].
+    apply (link_inv_push pr _ k (CDespawn e)); try reflexivity; simpl; auto.
+    + intros x v. apply lookup_delete_sub.
+    + intros v x. apply lookup_delete_sub.
+  - destruct (t_u2e pr !! u) as [e|]; [|exact HI].
+    apply (link_inv_push pr _ k (CApplyComp None e u t v)); try reflexivity; simpl; auto.
+  - apply (link_inv_push pr _ k (CApplyMaterial None a v)); try reflexivity; simpl; auto.
+  - eapply link_inv_core; [apply request_asset_core|exact HI].
+  - apply (link_inv_push pr _ k CStartServer); try reflexivity; simpl; auto.
+  - apply (link_inv_push (push_cmd (pr <| n_sticky_disconnect := true |> <| n_status := RDisconnected |>) k CRemoveClientTransport)
+             _ k (CStartClientTo p false)); try reflexivity; simpl; auto.
+    apply (link_inv_push pr _ k CRemoveClientTransport); try reflexivity; simpl; auto.
+  - exact HI.
+  - eapply link_inv_core; [|exact HI]. reflexivity.
+Qed.
+
+Lemma link_inv_server_received pr k from m :
+  link_inv pr [] -> link_inv (server_received pr k from m) [].
+Proof.
+  intros HI. destruct m; simpl.
+  - eapply link_inv_core; [apply relay_except_core|].
+    apply (link_inv_alloc pr _ k u); try reflexivity. exact HI.
+  - apply (link_inv_push pr _ k (CSetParentSrv from c p)); try reflexivity; simpl; auto.
+  - eapply link_inv_core; [apply relay_except_core|].
+    destruct (t_u2e pr !! u) as [e|] eqn:Eu; [|exact HI].
+    destruct (cmd_get_entity pr e); [|exact HI].
+    apply (link_inv_push pr _ k (CDespawn e)); try reflexivity; simpl; auto.
+    + intros x v. apply lookup_delete_sub.
+    + intros v x. apply lookup_delete_sub.
+  - destruct (t_u2e pr !! u) as [e|]; [|exact HI].
+    apply (link_inv_push pr _ k (CApplyComp (Some from) e u t v)); try reflexivity; simpl; auto.
+  - apply (link_inv_push pr _ k (CApplyMaterial (Some from) a v)); try reflexivity; simpl; auto.
+  - apply (link_inv_push (request_asset pr k0 a owner) _ k (CRelay from (MAsset k0 a owner)));
+      try reflexivity; simpl; auto.
+    eapply link_inv_core; [apply request_asset_core|exact HI].
+  - exact HI.
+  - match goal with |- link_inv (push_cmd ?x _ ?c) _ =>
+      apply (link_inv_push x _ k c); try reflexivity; simpl; auto end.
+    eapply link_inv_core; [apply relay_except_core|]. eapply link_inv_core; [|exact HI]. reflexivity.
+  - apply (link_inv_push pr _ k (CSendInitialSync from)); try reflexivity; simpl; auto.
+  - exact HI.
+Qed.
+
+Lemma link_inv_pop pr from rest_ :
+  link_inv pr [] -> link_inv (pr <| n_inbox := <[from := rest_]> (n_inbox pr) |>) [].
+Proof. intros HI. eapply link_inv_shrink; try exact HI; try reflexivity; auto. apply ents_shrink_refl. Qed.
+
+Definition app_only (c : cmd) : Prop :=
+  match c with CAppDespawn _ | CAppDespawnUuid _ => True | _ => False end.
+
+Lemma sys_body_link pr s o k last :
+  u2e_ok pr -> inbox_all msg_distinct pr -> app_all app_only pr ->
+  link_inv pr [] -> link_inv (sys_body pr s o k last) [].
+Proof.
+  intros Hu Hib Happ HI.
+  assert (Hfix : forall trig wo comps, link_inv (fix_system pr k last trig wo comps) []).
+  { intros trig wo comps. eapply link_inv_pushers; [apply fix_system_nocmdq| |exact HI].
+    apply queued_grows. intros P HP. apply fix_system_cmdq. exact HP. }
+  destruct s; simpl; try apply Hfix;
+    try (eapply link_inv_core; [|exact HI]; first [reflexivity|apply react_assets_core|apply process_assets_core]).
+  - apply link_inv_removed_server. exact HI.
+  - apply link_inv_created; assumption.
+  - eapply link_inv_core; [apply entity_parented_server_core|exact HI].
+  - eapply link_inv_core; [apply react_components_core|exact HI].
+  - eapply link_inv_core; [apply promote_reader_core|exact HI].
+  - eapply link_inv_pushers; [apply client_connected_nocmdq| |exact HI].
+    apply queued_grows. intros P HP. apply client_connected_cmdq. exact HP.
+  - refine (proj2 (server_poll_inv (fun a => inbox_all msg_distinct a /\ link_inv a []) msg_distinct
+                     pr k (fo_srv_poll o) _ _ _ (conj Hib HI))).
+    + intros a [Ha _]. exact Ha.
+    + intros a from m rest_ [Ha Hla] Hl. split; [|apply link_inv_pop; exact Hla].
+      apply inbox_all_pop; [|exact Ha]. intros m' Hm'. eapply Ha; [exact Hl|right; exact Hm'].
+    + intros a from m [Ha Hla] Hm. split; [|apply link_inv_server_received; exact Hla].
+      pose proof (pollfixed_inv _ _ (server_received_pollfixed a k from m)) as (_ & _ & _ & Hi).
+      eapply inbox_all_ext; [exact Hi|exact Ha].
+  - eapply link_inv_pushers; [apply verify_nocmdq| |exact HI].
+    apply queued_grows. intros P HP. apply verify_cmdq. exact HP.
+  - apply link_inv_removed_client. exact HI.
+  - apply link_inv_created; assumption.
+  - eapply link_inv_core; [apply entity_parented_client_core|exact HI].
+  - eapply link_inv_core; [apply react_components_core|exact HI].
+  - destruct (n_cli_transport pr) as [[h t]|]; [|exact HI].
+    refine (proj2 (client_poll_inv (fun a => inbox_all msg_distinct a /\ link_inv a []) msg_distinct
+                     pr k h (fo_cli_poll o) _ _ _ (conj Hib HI))).
+    + intros a [Ha _]. exact Ha.
+    + intros a from m rest_ [Ha Hla] Hl. split; [|apply link_inv_pop; exact Hla].
+      apply inbox_all_pop; [|exact Ha]. intros m' Hm'. eapply Ha; [exact Hl|right; exact Hm'].
+    + intros a m [Ha Hla] Hm. split; [|apply link_inv_client_received; assumption].
+      pose proof (pollfixed_inv _ _ (client_received_pollfixed a k m)) as (_ & _ & _ & Hi).
+      eapply inbox_all_ext; [exact Hi|exact Ha].
+  - eapply link_inv_core; [apply sync_detect_core|exact HI].
+  - apply (foldl_inv (fun a => link_inv a [])).
+    + eapply link_inv_shrink; try exact HI; try reflexivity; auto. apply ents_shrink_refl.
+    + intros a x Hx Ha. apply elem_of_list_filter in Hx as [_ Hx]. specialize (Happ x Hx).
+      apply (link_inv_push a _ k x.2); try reflexivity; auto.
+      intros Ht. destruct (x.2); simpl in *; contradiction.
+Qed.
+
+(* ---------- what the systems put into the outbox, for a predicate M that holds of every message
+   other than a parent link ------------------------------------------------------------------------- *)
+Section OutGen.
+  Variable M : msg -> Prop.
+  Hypothesis HM : forall m, not_parented m -> M m.
+
+  Lemma entity_removed_server_out_gen pr : out_all M pr -> out_all M (entity_removed_server pr).
+  Proof.
+    intros H. unfold entity_removed_server. cbv zeta. apply foldl_out_all; [|exact H].
+    intros a u _ Ha. apply broadcast_out_all; [exact Ha|apply HM; exact I].
+  Qed.
+  Lemma entity_removed_client_out_gen pr : out_all M pr -> out_all M (entity_removed_client pr).
+  Proof.
+    intros H. unfold entity_removed_client. cbv zeta. apply foldl_out_all; [|exact H].
+    intros a [u e] _ Ha. cbv beta iota. apply send_up_out_all; [exact Ha|apply HM; exact I].
+  Qed.
+  Lemma entity_created_out_gen server pr k last : out_all M pr -> out_all M (entity_created server pr k last).
+  Proof.
+    intros H. rewrite entity_created_eq. apply foldl_out_all; [|exact H].
+    intros a [e en] _ Ha. cbv beta iota. destruct (newly_marked last en); [|exact Ha].
+    apply created_body_out; [apply HM; exact I|exact Ha].
+  Qed.
+  Lemma react_components_out_gen b pr : out_all M pr -> out_all M (react_on_changed_components b pr).
+  Proof.
+    intros H. unfold react_on_changed_components. cbv zeta. apply foldl_out_all; [|exact H].
+    intros a [[u t] v] _ Ha. cbv beta iota.
+    destruct b; [apply broadcast_out_all|apply send_up_out_all]; (exact Ha || (apply HM; exact I)).
+  Qed.
+  Lemma react_assets_out_gen b k pr : out_all M pr -> out_all M (react_on_changed_assets b k pr).
+  Proof.
+    intros H. unfold react_on_changed_assets. cbv zeta. apply foldl_out_all; [|exact H].
+    intros a [k' x] _ Ha. cbv beta iota.
+    destruct (a_store a !! akey k x); [|exact Ha].
+    destruct (memN x (t_htok a)); [exact Ha|].
+    destruct k; destruct b;
+      first [apply broadcast_out_all|apply send_up_out_all]; (exact Ha || (apply HM; exact I)).
+  Qed.
+  Lemma promote_reader_out_gen pr : out_all M pr -> out_all M (promote_reader pr).
+  Proof.
+    intros H. unfold promote_reader. cbv zeta. apply foldl_out_all; [|exact H].
+    intros a c _ Ha. apply send_out_all; [exact Ha|apply HM; exact I].
+  Qed.
+  Lemma server_received_out_gen pr k from m : out_all M pr -> out_all M (server_received pr k from m).
+  Proof.
+    intros H. destruct m; simpl; try exact H.
+    - apply relay_except_out_all; [|apply HM; exact I]. eapply out_all_ext; [|exact H]. reflexivity.
+    - apply relay_except_out_all; [|apply HM; exact I]. repeat case_match; exact H.
+    - case_match; exact H.
+    - eapply out_all_ext; [|exact H]. change (p_out (request_asset pr k0 a owner) = p_out pr).
+      apply request_asset_out.
+    - eapply out_all_ext; [apply push_cmd_out|].
+      apply relay_except_out_all; [|apply HM; exact I]. eapply out_all_ext; [|exact H]. reflexivity.
+  Qed.
+End OutGen.
+
+Lemma not_parented_distinct m : not_parented m -> msg_distinct m.
+Proof. destruct m; simpl; auto. Qed.
+
+(* the two systems that originate parent links *)
+Lemma entity_parented_server_out_links pr last :
+  link_inv pr [] -> out_all msg_distinct pr -> out_all msg_distinct (entity_parented_server pr last).
+Proof.
+  intros HI H. unfold entity_parented_server.
+  refine (proj2 (foldl_inv (fun a => core a = core pr /\ out_all msg_distinct a) _ _ _ _ _));
+    [split; [reflexivity|exact H]|].
+  intros a [e en] Hin [Hc Ha]. cbv beta iota.
+  unfold ents_list in Hin. apply elem_of_map_to_list in Hin.
+  destruct (parent_changed last en) as [p|] eqn:Epc; [|split; assumption].
+  destruct (t_e2u a !! e) as [u|] eqn:Eu; [|split; assumption].
+  destruct (t_e2u a !! p) as [pu|] eqn:Epu; [|split; assumption].
+  split; [rewrite broadcast_core; exact Hc|].
+  apply broadcast_out_all; [exact Ha|]. simpl.
+  rewrite (core_e2u _ _ Hc) in Eu, Epu.
+  unfold parent_changed in Epc. destruct (en_parent en) as [[q t]|] eqn:Ep; [|discriminate].
+  destruct (last <? t); [|discriminate]. injection Epc as ->.
+  destruct (li_links _ _ HI e en p t Hin Ep) as [_ (u0 & v0 & Hne & [_ Hu0] & [_ Hv0])].
+  rewrite (Hu0 u (or_introl Eu)), (Hv0 pu (or_introl Epu)). exact Hne.
+Qed.
+
+Lemma entity_parented_client_out_links pr last :
+  link_inv pr [] -> out_all msg_distinct pr -> out_all msg_distinct (entity_parented_client pr last).
+Proof.
+  intros HI H. unfold entity_parented_client.
+  refine (proj2 (foldl_inv (fun a => core a = core pr /\ out_all msg_distinct a) _ _ _ _ _));
+    [split; [reflexivity|exact H]|].
+  intros a [e en] Hin [Hc Ha]. cbv beta iota.
+  unfold ents_list in Hin. apply elem_of_map_to_list in Hin.
+  destruct (parent_changed last en) as [p|] eqn:Epc; [|split; assumption].
+  destruct (en_sync en) as [u|] eqn:Eu; [|split; assumption].
+  destruct (p_ents a !! p) as [pen|] eqn:Epen; [|split; assumption].
+  destruct (en_sync pen) as [pu|] eqn:Epu; [|split; assumption].
+  destruct (en_children pen); [split; assumption|].
+  split; [rewrite send_up_core; exact Hc|].
+  apply send_up_out_all; [exact Ha|]. simpl.
+  rewrite (core_ents _ _ Hc) in Epen.
+  unfold parent_changed in Epc. destruct (en_parent en) as [[q t]|] eqn:Ep; [|discriminate].
+  destruct (last <? t); [|discriminate]. injection Epc as ->.
+  destruct (li_links _ _ HI e en p t Hin Ep) as [_ (u0 & v0 & Hne & [_ Hu0] & [_ Hv0])].
+  assert (H1 : u = u0) by (apply Hu0; right; left; exists en; split; assumption).
+  assert (H2 : pu = v0) by (apply Hv0; right; left; exists pen; split; assumption).
+  subst. exact Hne.
+Qed.
+
+Lemma sys_body_out_links pr s o k last :
+  link_inv pr [] -> out_all msg_distinct pr -> out_all msg_distinct (sys_body pr s o k last).
+Proof.
+  intros HI H.
+  destruct s; simpl;
+    try exact H;
+    try (eapply out_all_ext; [apply fix_system_out|exact H]);
+    try (apply react_assets_out_gen; [exact not_parented_distinct|exact H]);
+    try (eapply out_all_ext; [apply process_assets_out|exact H]).
+  - apply entity_removed_server_out_gen; [exact not_parented_distinct|exact H].
+  - apply entity_created_out_gen; [exact not_parented_distinct|exact H].
+  - apply entity_parented_server_out_links; assumption.
+  - apply react_components_out_gen; [exact not_parented_distinct|exact H].
+  - apply promote_reader_out_gen; [exact not_parented_distinct|exact H].
+  - eapply out_all_ext; [apply client_connected_out|exact H].
+  - apply (server_poll_inv (out_all msg_distinct) (fun _ => True)); [| | |exact H].
+    + intros a _ ? ? ? _ _. exact I.
+    + intros a from m rest_ Ha _. exact Ha.
+    + intros a from m Ha _. apply server_received_out_gen; [exact not_parented_distinct|exact Ha].
+  - eapply out_all_ext; [apply verify_out|exact H].
+  - apply entity_removed_client_out_gen; [exact not_parented_distinct|exact H].
+  - apply entity_created_out_gen; [exact not_parented_distinct|exact H].
+  - apply entity_parented_client_out_links; assumption.
+  - apply react_components_out_gen; [exact not_parented_distinct|exact H].
+  - destruct (n_cli_transport pr) as [[h t]|]; [|exact H].
+    apply (client_poll_inv (out_all msg_distinct) (fun _ => True)); [| | |exact H].
+    + intros a _ ? ? ? _ _. exact I.
+    + intros a from m rest_ Ha _. exact Ha.
+    + intros a m Ha _. eapply out_all_ext; [apply client_received_out|exact Ha].
+  - eapply out_all_ext; [apply sync_detect_out|exact H].
+  - apply foldl_out_all; [|exact H]. intros a x _ Ha. exact Ha.
+Qed.
+
+(* ---------- deferred commands and the link invariant ------------------------------------------------ *)
+
+Lemma link_inv_apply_shrink pr pr' c cs :
+  rest pr' = rest pr -> ents_shrink (p_ents pr) (p_ents pr') ->
+  link_inv pr (c :: cs) -> link_inv pr' cs.
+Proof.
+  intros Hr He HI. pose proof (rest_e2u _ _ Hr) as He2u.
+  apply rest_inv in Hr as (_ & Hu & _ & Hn & Hq).
+  apply (link_inv_shrink pr (c :: cs)); try assumption.
+  - rewrite He2u. auto.
+  - rewrite Hu. auto.
+  - intros x _ Hx. unfold queued in *. rewrite Hq in Hx. apply queued_tail_. exact Hx.
+Qed.
+
+Lemma ents_shrink_trans m1 m2 m3 : ents_shrink m1 m2 -> ents_shrink m2 m3 -> ents_shrink m1 m3.
+Proof.
+  intros H12 H23 e en3 Hl3. destruct (H23 e en3 Hl3) as (en2 & Hl2 & Hs2 & Hp2).
+  destruct (H12 e en2 Hl2) as (en1 & Hl1 & Hs1 & Hp1). exists en1.
+  split; [exact Hl1|split; [congruence|]]. intros q t Hp. destruct (Hp2 q t Hp) as [t0 Ht0].
+  apply (Hp1 q t0 Ht0).
+Qed.
+Lemma ents_shrink_delete m e : ents_shrink m (delete e m).
+Proof.
+  intros x en Hl. apply lookup_delete_Some in Hl as [_ Hl]. exists en.
+  split; [exact Hl|split; [reflexivity|]]. intros q t Hp. exists t. exact Hp.
+Qed.
+Lemma ents_shrink_upd pr e f :
+  (forall en, en_sync (f en) = en_sync en /\ en_parent (f en) = en_parent en) ->
+  ents_shrink (p_ents pr) (p_ents (upd_ent pr e f)).
+Proof.
+  intros Hf. unfold upd_ent. destruct (p_ents pr !! e) as [en|] eqn:E; [|apply ents_shrink_refl].
+  intros x en' Hl. simpl in Hl. destruct (decide (x = e)) as [->|Hne].
+  - rewrite lookup_insert in Hl. injection Hl as <-. exists en. destruct (Hf en) as [H1 H2].
+    split; [exact E|split; [exact H1|]]. intros q t Hp. exists t. rewrite <- H2. exact Hp.
+  - rewrite lookup_insert_ne in Hl by congruence. exists en'.
+    split; [exact Hl|split; [reflexivity|]]. intros q t Hp. exists t. exact Hp.
+Qed.
+Lemma put_comp_sync_parent now t v en :
+  en_sync (put_comp now t v en) = en_sync en /\ en_parent (put_comp now t v en) = en_parent en.
+Proof. unfold put_comp. destruct (en_comps en !! t); split; reflexivity. Qed.
+
+Lemma acc_ents_shrink pr e t v : ents_shrink (p_ents pr) (p_ents (apply_component_change pr e t v).1).
+Proof.
+  unfold apply_component_change.
+  repeat case_match; simpl; try apply ents_shrink_refl.
+  all: match goal with |- ents_shrink _ (p_ents (upd_ent ?x ?e ?f)) =>
+         change (ents_shrink (p_ents x) (p_ents (upd_ent x e f))) end;
+       apply ents_shrink_upd; intros en'; apply put_comp_sync_parent.
+Qed.
+
+(* entities after add_child p c: only c's Parent may be new, and then it is p *)
+Definition parent_step (c p : ent) (m m' : gmap ent entity) : Prop :=
+  forall x en', m' !! x = Some en' ->
+    exists en, m !! x = Some en /\ en_sync en' = en_sync en /\
+               (forall q t, en_parent en' = Some (q, t) ->
+                  (exists t0, en_parent en = Some (q, t0)) \/ (x = c /\ q = p)).
+
+Lemma parent_step_of_shrink c p m m' : ents_shrink m m' -> parent_step c p m m'.
+Proof.
+  intros H x en' Hl. destruct (H x en' Hl) as (en & Hl0 & Hs & Hp). exists en.
+  split; [exact Hl0|split; [exact Hs|]]. intros q t Hq. left. apply (Hp q t Hq).
+Qed.
+Lemma parent_step_trans c p m1 m2 m3 : parent_step c p m1 m2 -> parent_step c p m2 m3 -> parent_step c p m1 m3.
+Proof.
+  intros H12 H23 x en3 Hl3. destruct (H23 x en3 Hl3) as (en2 & Hl2 & Hs2 & Hp2).
+  destruct (H12 x en2 Hl2) as (en1 & Hl1 & Hs1 & Hp1). exists en1.
+  split; [exact Hl1|split; [congruence|]]. intros q t Hp.
+  destruct (Hp2 q t Hp) as [[t0 Ht0]|Hnew]; [|right; exact Hnew]. apply (Hp1 q t0 Ht0).
+Qed.
+Lemma parent_step_set pr c p now :
+  parent_step c p (p_ents pr) (p_ents (upd_ent pr c (fun en => en <| en_parent := Some (p, now) |>))).
+Proof.
+  unfold upd_ent. destruct (p_ents pr !! c) as [en|] eqn:E; [|apply parent_step_of_shrink, ents_shrink_refl].
+  intros x en' Hl. simpl in Hl. destruct (decide (x = c)) as [->|Hne].
+  - rewrite lookup_insert in Hl. injection Hl as <-. exists en.
+    split; [exact E|split; [reflexivity|]]. intros q t Hp. simpl in Hp. injection Hp as <- <-. right. auto.
+  - rewrite lookup_insert_ne in Hl by congruence. exists en'.
+    split; [exact Hl|split; [reflexivity|]]. intros q t Hp. left. exists t. exact Hp.
+Qed.
+
+Lemma add_child_ok_parent_step pr p c prev :
+  parent_step c p (p_ents pr) (p_ents (add_child_ok pr p c prev)).
+Proof.
+  unfold add_child_ok. cbv zeta.
+  set (pr1 := upd_ent pr c (fun en => en <| en_parent := Some (p, p_tick pr) |>)).
+  assert (H1 : parent_step c p (p_ents pr) (p_ents pr1)) by apply parent_step_set.
+  assert (Hch : forall x e (g : list ent -> list ent),
+            parent_step c p (p_ents x) (p_ents (upd_ent x e (fun en => en <| en_children := g (en_children en) |>)))).
+  { intros x e g. apply parent_step_of_shrink, ents_shrink_upd. intros en. split; reflexivity. }
+  eapply parent_step_trans; [|apply (Hch _ p (fun l => removeN c l ++ [c]))].
+  destruct prev as [q|]; [|exact H1]. destruct (q =? p); [exact H1|].
+  eapply parent_step_trans; [exact H1|apply (Hch _ q (fun l => removeN c l))].
+Qed.
+Lemma add_child_parent_step pr p c : parent_step c p (p_ents pr) (p_ents (add_child pr p c)).
+Proof.
+  rewrite add_child_eq.
+  destruct (negb (alive pr p)); [rewrite set_panic_ents; apply parent_step_of_shrink, ents_shrink_refl|].
+  destruct (p =? c); [rewrite set_panic_ents; apply parent_step_of_shrink, ents_shrink_refl|].
+  apply add_child_ok_parent_step.
+Qed.
+Lemma set_parent_twice_parent_step pr c p :
+  parent_step c p (p_ents pr) (p_ents (set_parent_twice pr c p)).
+Proof.
+  unfold set_parent_twice. destruct (p_panic (add_child pr p c)); [apply add_child_parent_step|].
+  eapply parent_step_trans; apply add_child_parent_step.
+Qed.
+
+Lemma link_inv_parent_step pr extra pr' extra' c p :
+  link_inv pr extra ->
+  t_e2u pr' = t_e2u pr -> t_u2e pr' = t_u2e pr -> p_next_ent pr' = p_next_ent pr ->
+  parent_step c p (p_ents pr) (p_ents pr') ->
+  (forall x, tracked x -> queued pr' extra' x -> queued pr extra x) ->
+  old pr c -> old pr p -> distinct_ids pr extra c p ->
+  link_inv pr' extra'.
+Proof.
+  intros HI He2u Hu2e Hn Hps Hq Hc Hp Hd.
+  apply (link_inv_step pr extra); try assumption.
+  - rewrite Hn. lia.
+  - intros e u _ [H|[(en' & Hl & Hs)|H]]; left.
+    + left. rewrite <- He2u. exact H.
+    + right. left. destruct (Hps e en' Hl) as (en & Hl0 & Hs0 & _). exists en.
+      split; [exact Hl0|]. rewrite <- Hs0. exact Hs.
+    + right. right. apply (Hq (CSpawnSync e u) I H).
+  - intros e Hno Ho. exfalso. apply Hno. unfold old in *. rewrite <- Hn. exact Ho.
+  - intros u e Hl. left. rewrite <- Hu2e. exact Hl.
+  - intros e en q t Hl Hpar. destruct (Hps e en Hl) as (en0 & Hl0 & _ & Hp0).
+    destruct (Hp0 q t Hpar) as [[t0 Ht0]|[-> ->]].
+    + left. exists en0, t0. split; assumption.
+    + right. split; [exact Hc|split; [exact Hp|exact Hd]].
+  - intros e en Hl. left. destruct (Hps e en Hl) as (en0 & Hl0 & _). exists en0. exact Hl0.
+  - intros e u Hl. left. exists u. rewrite <- He2u. exact Hl.
+  - intros e u H. left. apply (Hq (CSpawnSync e u) I H).
+  - intros e u H. left. apply (Hq (CInsertSync e u) I H).
+  - intros x y H. left. apply (Hq (CSetParentCli x y) I H).
+Qed.
+
+Definition link_cmd_ok (c : cmd) : Prop :=
+  match c with
+  | CAppInsert _ _ _ => False
+  | CSetParentSrv _ cu pu => cu <> pu
+  | CSetParentCli c p => c <> p
+  | CRelay _ m => msg_distinct m
+  | _ => True
+  end.
+
+Lemma link_inv_weaken pr c cs : link_inv pr (c :: cs) -> link_inv pr cs.
+Proof. apply link_inv_apply_shrink; [reflexivity|apply ents_shrink_refl]. Qed.
+
+Lemma link_inv_core_tail pr pr' c cs : core pr' = core pr -> link_inv pr (c :: cs) -> link_inv pr' cs.
+Proof. intros H HI. eapply link_inv_core; [exact H|]. eapply link_inv_weaken. exact HI. Qed.
+
+Lemma apply_cmd_link pr c cs :
+  link_cmd_ok c -> link_inv pr (c :: cs) -> link_inv (apply_cmd pr c) cs.
+Proof.
+  intros Hc HI. destruct c; simpl.
+  - (* CSpawnSync e u *)
+    destruct (li_spawn _ _ HI e u (queued_head_ _ _ _)) as [Hge Hold].
+    apply (link_inv_step pr (CSpawnSync e u :: cs)); try assumption.
+    + simpl. lia.
+    + intros x v _ [H|[(en' & Hl & Hs)|H]].
+      * left. left. exact H.
+      * simpl in Hl. destruct (decide (x = e)) as [->|Hne].
+        -- rewrite lookup_insert in Hl. injection Hl as <-. simpl in Hs. injection Hs as <-.
+           left. right. right. apply queued_head_.
+        -- rewrite lookup_insert_ne in Hl by congruence. left. right. left. exists en'. split; assumption.
+      * left. right. right. apply queued_tail_. exact H.
+    + intros x Hno Ho. exfalso. apply Hno. exact Ho.
+    + intros v x H. left. exact H.
+    + intros x en' q t Hl Hp. simpl in Hl. destruct (decide (x = e)) as [->|Hne].
+      * rewrite lookup_insert in Hl. injection Hl as <-. simpl in Hp. discriminate.
+      * rewrite lookup_insert_ne in Hl by congruence. left. exists en', t. split; assumption.
+    + intros x en' Hl. simpl in Hl. destruct (decide (x = e)) as [->|Hne].
+      * right. exact Hold.
+      * rewrite lookup_insert_ne in Hl by congruence. left. exists en'. exact Hl.
+    + intros x v H. left. exists v. exact H.
+    + intros x v H. left. apply queued_tail_. exact H.
+    + intros x v H. left. apply queued_tail_. exact H.
+    + intros x y H. left. apply queued_tail_. exact H.
+  - (* CDespawn *) apply (link_inv_apply_shrink pr _ (CDespawn e) cs); [reflexivity|apply ents_shrink_delete|exact HI].
+  - (* CInsertSync e u *)
+    destruct (li_isync _ _ HI e u (queued_head_ _ _ _)) as [-> Hlt].
+    apply (link_inv_step pr (CInsertSync e e :: cs)); try assumption.
+    + rewrite (proj1 (proj2 (proj2 (proj2 (rest_inv _ _ (upd_ent_rest pr e _)))))). lia.
+    + intros x v _ [H|[(en' & Hl & Hs)|H]].
+      * rewrite (rest_e2u _ _ (upd_ent_rest _ _ _)) in H. left. left. exact H.
+      * unfold upd_ent in Hl. destruct (p_ents pr !! e) as [en|] eqn:E.
+        -- simpl in Hl. destruct (decide (x = e)) as [->|Hne].
+           ++ rewrite lookup_insert in Hl. injection Hl as <-. simpl in Hs. injection Hs as <-.
+              right. split; [exact Hlt|reflexivity].
+           ++ rewrite lookup_insert_ne in Hl by congruence. left. right. left. exists en'. split; assumption.
+        -- left. right. left. exists en'. split; assumption.
+      * left. right. right. unfold queued in *.
+        rewrite (proj2 (proj2 (proj2 (proj2 (rest_inv _ _ (upd_ent_rest pr e _)))))) in H.
+        apply queued_tail_. exact H.
+    + intros x Hno Ho. exfalso. apply Hno. unfold old in *.
+      rewrite (proj1 (proj2 (proj2 (proj2 (rest_inv _ _ (upd_ent_rest pr e _)))))) in Ho. exact Ho.
+    + intros v x H. left.
+      rewrite (proj1 (proj2 (rest_inv _ _ (upd_ent_rest pr e _)))) in H. exact H.
+    + intros x en' q t Hl Hp. left. unfold upd_ent in Hl. destruct (p_ents pr !! e) as [en|] eqn:E.
+      * simpl in Hl. destruct (decide (x = e)) as [->|Hne].
+        -- rewrite lookup_insert in Hl. injection Hl as <-. simpl in Hp. exists en, t. split; assumption.
+        -- rewrite lookup_insert_ne in Hl by congruence. exists en', t. split; assumption.
+      * exists en', t. split; assumption.
+    + intros x en' Hl. left. unfold upd_ent in Hl. destruct (p_ents pr !! e) as [en|] eqn:E.
+      * simpl in Hl. destruct (decide (x = e)) as [->|Hne].
+        -- exists en. exact E.
+        -- rewrite lookup_insert_ne in Hl by congruence. exists en'. exact Hl.
+      * exists en'. exact Hl.
+    + intros x v H. left. exists v. rewrite (rest_e2u _ _ (upd_ent_rest _ _ _)) in H. exact H.
+    + intros x v H. left. unfold queued in *.
+      rewrite (proj2 (proj2 (proj2 (proj2 (rest_inv _ _ (upd_ent_rest pr e _)))))) in H.
+      apply queued_tail_. exact H.
+    + intros x v H. left. unfold queued in *.
+      rewrite (proj2 (proj2 (proj2 (proj2 (rest_inv _ _ (upd_ent_rest pr e _)))))) in H.
+      apply queued_tail_. exact H.
+    + intros x y H. left. unfold queued in *.
+      rewrite (proj2 (proj2 (proj2 (proj2 (rest_inv _ _ (upd_ent_rest pr e _)))))) in H.
+      apply queued_tail_. exact H.
+  - (* CApplyComp *)
+    pose proof (apply_cmd_rest pr (CApplyComp from e u t v)) as Hr. simpl in Hr.
+    eapply link_inv_apply_shrink; [exact Hr| |exact HI].
+    destruct (apply_component_change pr e t v) as [pr' ch] eqn:E.
+    pose proof (acc_ents_shrink pr e t v) as Hs. rewrite E in Hs. simpl in Hs.
+    destruct from as [c|]; [destruct ch|]; try exact Hs.
+    rewrite (core_ents _ _ (relay_except_core _ _ _)). exact Hs.
+  - (* CSetParentSrv *)
+    pose proof (apply_cmd_rest pr (CSetParentSrv from c p)) as Hr. simpl in Hr.
+    destruct (t_u2e pr !! c) as [ce|] eqn:Ec; [|eapply link_inv_weaken; exact HI].
+    destruct (t_u2e pr !! p) as [pe'|] eqn:Ep; [|eapply link_inv_weaken; exact HI].
+    destruct (negb (alive pr pe') || negb (alive pr ce)); [eapply link_inv_weaken; exact HI|].
+    destruct (li_uk _ _ HI c ce Ec) as [Ho1 Hi1]. destruct (li_uk _ _ HI p pe' Ep) as [Ho2 Hi2].
+    pose proof (rest_e2u _ _ Hr) as He2u. apply rest_inv in Hr as (_ & Hu & _ & Hn & Hq).
+    eapply (link_inv_parent_step pr _ _ cs ce pe'); try eassumption.
+    + destruct (parent_differs pr ce pe').
+      * destruct (p_panic (set_parent_twice pr ce pe'));
+          rewrite ?(core_ents _ _ (relay_except_core _ _ _)); apply set_parent_twice_parent_step.
+      * destruct (p_panic pr); rewrite ?(core_ents _ _ (relay_except_core _ _ _));
+          apply parent_step_of_shrink, ents_shrink_refl.
+    + intros x _ Hx. unfold queued in *. rewrite Hq in Hx. apply queued_tail_. exact Hx.
+    + exists c, p. split; [exact Hc|split; assumption].
+  - (* CSetParentCli *)
+    pose proof (apply_cmd_rest pr (CSetParentCli c p)) as Hr. simpl in Hr.
+    destruct (li_cli _ _ HI c p (queued_head_ _ _ _)) as (Ho1 & Ho2 & Hd).
+    destruct (negb (alive pr p) || negb (alive pr c)); [eapply link_inv_weaken; exact HI|].
+    pose proof (rest_e2u _ _ Hr) as He2u. apply rest_inv in Hr as (_ & Hu & _ & Hn & Hq).
+    eapply (link_inv_parent_step pr _ _ cs c p); try eassumption.
+    + destruct (parent_differs pr c p); [apply set_parent_twice_parent_step|].
+      apply parent_step_of_shrink, ents_shrink_refl.
+    + intros x _ Hx. unfold queued in *. rewrite Hq in Hx. apply queued_tail_. exact Hx.
+  - (* CApplyMaterial *)
+    eapply link_inv_core_tail; [|exact HI].
+    destruct from as [c|]; [rewrite relay_except_core|]; reflexivity.
+  - (* CRelay *) eapply link_inv_core_tail; [apply relay_except_core|exact HI].
+  - (* CSendInitialSync *)
+    eapply link_inv_core_tail; [|exact HI].
+    destruct (build_full_sync pr) as [pr1 ms] eqn:E.
+    pose proof (build_full_sync_core pr) as H1. rewrite E in H1. simpl in H1.
+    rewrite send_core. etransitivity; [apply (foldl_core _ ms pr1 (fun a x => send_core a to x))|exact H1].
+  - (* CRequestInitialSync *)
+    eapply link_inv_core_tail; [|exact HI].
+    destruct (build_full_sync pr) as [pr1 ms] eqn:E.
+    pose proof (build_full_sync_core pr) as H1. rewrite E in H1. simpl in H1.
+    rewrite send_up_core. exact H1.
+  - (* CFixInsert *)
+    pose proof (apply_cmd_rest pr (CFixInsert e companions)) as Hr. simpl in Hr.
+    eapply link_inv_apply_shrink; [exact Hr| |exact HI].
+    apply (foldl_inv (fun a => ents_shrink (p_ents pr) (p_ents a))); [apply ents_shrink_refl|].
+    intros a t _ Ha. eapply ents_shrink_trans; [exact Ha|].
+    apply ents_shrink_upd. intros en. apply put_comp_sync_parent.
+  - eapply link_inv_core_tail; [|exact HI]. reflexivity.
+  - eapply link_inv_core_tail; [|exact HI]. destruct set_flag; reflexivity.
+  - eapply link_inv_core_tail; [|exact HI]. reflexivity.
+  - eapply link_inv_core_tail; [|exact HI]. reflexivity.
+  - (* CAppDespawnUuid *)
+    destruct (filter _ _) as [|[e en] l]; [eapply link_inv_weaken; exact HI|].
+    apply (link_inv_apply_shrink pr _ (CAppDespawnUuid u) cs); [reflexivity|apply ents_shrink_delete|exact HI].
+  - apply (link_inv_apply_shrink pr _ (CAppDespawn e) cs); [reflexivity|apply ents_shrink_delete|exact HI].
+  - contradiction.
+Qed.
+
+(* the snapshot's parent links join different uuids *)
+Lemma build_full_sync_msgs_links pr extra m :
+  link_inv pr extra -> m ∈ (build_full_sync pr).2 -> msg_distinct m.
+Proof.
+  intros HI. unfold build_full_sync.
+  destruct (serve_all pr AImage) as [pr1 mi] eqn:E1.
+  destruct (serve_all pr1 AMesh) as [pr2 me] eqn:E2.
+  destruct (serve_all pr2 AAudio) as [pr3 ma] eqn:E3.
+  simpl. intros Hin.
+  repeat (apply elem_of_app in Hin as [Hin|Hin]).
+  - apply elem_of_concat in Hin as [l [Hm Hl]].
+    apply elem_of_list_fmap in Hl as [[e en] [-> _]].
+    unfold snapshot_entity_msgs in Hm.
+    destruct (en_sync en); [|inversion Hm]. destruct (t_e2u pr !! e); [|inversion Hm].
+    apply elem_of_cons in Hm as [->|Hm]; [exact I|].
+    apply elem_of_list_omap in Hm as [[t c] [_ Hm]].
+    destruct (memN t (p_sync_types pr) && negb (memN t (en_excl en))); [|discriminate].
+    injection Hm as <-. destruct (c_val c); exact I.
+  - apply elem_of_concat in Hin as [l [Hm Hl]].
+    apply elem_of_list_fmap in Hl as [[e en] [-> Hl]].
+    unfold ents_list in Hl. apply elem_of_map_to_list in Hl.
+    unfold snapshot_parent_msgs in Hm.
+    destruct (en_sync en) as [su|]; [|inversion Hm].
+    destruct (en_parent en) as [[q t]|] eqn:Ep; [|inversion Hm].
+    destruct (t_e2u pr !! e) as [u|] eqn:Eu; [|inversion Hm].
+    destruct (t_e2u pr !! q) as [pu|] eqn:Epu; [|inversion Hm].
+    apply elem_of_list_singleton in Hm as ->. simpl.
+    destruct (li_links _ _ HI e en q t Hl Ep) as [_ (u0 & v0 & Hne & [_ Hu0] & [_ Hv0])].
+    rewrite (Hu0 u (or_introl Eu)), (Hv0 pu (or_introl Epu)). exact Hne.
+  - apply not_parented_distinct. apply (serve_all_msgs pr AImage). rewrite E1. exact Hin.
+  - unfold snapshot_material_msgs in Hin. destruct (t_mat pr1); [|inversion Hin].
+    apply elem_of_list_fmap in Hin as [[a v] [-> _]]. exact I.
+  - apply not_parented_distinct. apply (serve_all_msgs pr1 AMesh). rewrite E2. exact Hin.
+  - apply not_parented_distinct. apply (serve_all_msgs pr2 AAudio). rewrite E3. exact Hin.
+Qed.
+
+Lemma apply_cmd_out_links pr c cs :
+  link_cmd_ok c -> link_inv pr (c :: cs) ->
+  out_all msg_distinct pr -> out_all msg_distinct (apply_cmd pr c).
+Proof.
+  intros Hc HI H. destruct c; simpl; simpl in Hc; try exact H; try contradiction.
+  - eapply out_all_ext; [apply upd_ent_out|exact H].
+  - destruct (apply_component_change pr e t v) as [pr' ch] eqn:E.
+    pose proof (acc_out pr e t v) as H1. rewrite E in H1. simpl in H1.
+    assert (H' : out_all msg_distinct pr') by (eapply out_all_ext; [exact H1|exact H]).
+    destruct from as [c|]; [destruct ch|]; try exact H'.
+    apply relay_except_out_all; [exact H'|exact I].
+  - destruct (t_u2e pr !! c) as [ce|]; [|exact H].
+    destruct (t_u2e pr !! p) as [pe'|]; [|exact H].
+    destruct (negb (alive pr pe') || negb (alive pr ce)); [exact H|].
+    assert (H' : out_all msg_distinct (if parent_differs pr ce pe' then set_parent_twice pr ce pe' else pr)).
+    { destruct (parent_differs pr ce pe'); [|exact H].
+      eapply out_all_ext; [apply set_parent_twice_out|exact H]. }
+    destruct (p_panic _); [exact H'|]. apply relay_except_out_all; [exact H'|exact Hc].
+  - destruct (negb (alive pr p) || negb (alive pr c)); [exact H|].
+    destruct (parent_differs pr c p); [|exact H].
+    eapply out_all_ext; [apply set_parent_twice_out|exact H].
+  - destruct from as [c|]; [apply relay_except_out_all; [|exact I]|]; exact H.
+  - apply relay_except_out_all; assumption.
+  - destruct (build_full_sync pr) as [pr1 ms] eqn:E.
+    pose proof (build_full_sync_out pr) as H1. rewrite E in H1. simpl in H1.
+    assert (Hms : forall m, m ∈ ms -> msg_distinct m).
+    { intros m Hm. apply (build_full_sync_msgs_links pr _ m HI). rewrite E. exact Hm. }
+    apply send_out_all; [|exact I].
+    apply foldl_out_all.
+    + intros a x Hx Ha. apply send_out_all; [exact Ha|apply Hms; exact Hx].
+    + eapply out_all_ext; [exact H1|exact H].
+  - destruct (build_full_sync pr) as [pr1 ms] eqn:E.
+    pose proof (build_full_sync_out pr) as H1. rewrite E in H1. simpl in H1.
+    apply send_up_out_all; [|exact I]. eapply out_all_ext; [exact H1|exact H].
+  - apply foldl_out_all; [|exact H].
+    intros a x _ Ha. eapply out_all_ext; [apply upd_ent_out|exact Ha].
+  - destruct set_flag; exact H.
+  - destruct (filter _ _) as [|[e en] l]; exact H.
+Qed.
+
+(* ---------- flush with the pending list as part of the invariant -------------------------------------- *)
+
+Lemma apply_cmds_inv2 (J : peer_state -> list cmd -> Prop) :
+  (forall pr c cs, J pr (c :: cs) -> J (apply_cmd pr c) cs) ->
+  (forall pr cs, J pr cs -> p_panic pr = None) ->
+  forall cs pr, J pr cs -> J (apply_cmds pr cs) [].
+Proof.
+  intros Hstep Hnp. induction cs as [|c cs IH]; intros pr HJ; simpl; [exact HJ|].
+  rewrite (Hnp _ _ HJ). apply IH. apply Hstep. exact HJ.
+Qed.
+
+Lemma flush_inv2 (J : peer_state -> list cmd -> Prop) :
+  (forall pr k cs, J pr [] -> p_cmdq pr !! k = Some cs -> J (pr <| p_cmdq := delete k (p_cmdq pr) |>) cs) ->
+  (forall pr c cs, J pr (c :: cs) -> J (apply_cmd pr c) cs) ->
+  (forall pr cs, J pr cs -> p_panic pr = None) ->
+  forall pr, J pr [] -> J (flush pr) [].
+Proof.
+  intros Htake Hstep Hnp pr HJ. rewrite flush_eq. unfold flush_with.
+  apply (foldl_inv (fun a => J a [])); [exact HJ|].
+  intros a s _ Ha. cbv zeta.
+  destruct (p_cmdq a !! sys_key s) as [cs|] eqn:E; [|exact Ha].
+  apply apply_cmds_inv2; [exact Hstep|exact Hnp|]. apply Htake; assumption.
+Qed.
+
+Lemma link_inv_take pr k cs :
+  link_inv pr [] -> p_cmdq pr !! k = Some cs -> link_inv (pr <| p_cmdq := delete k (p_cmdq pr) |>) cs.
+Proof.
+  intros HI Hk. apply (link_inv_shrink pr []); try assumption; try reflexivity; auto.
+  - apply ents_shrink_refl.
+  - intros c _ Hc. unfold queued in *. simpl in Hc. apply (queued_take_ _ _ _ _ Hk). exact Hc.
+Qed.
+
+(* no system adds to the application's pending commands *)
+Lemma sys_body_app_sub pr s o k last x :
+  x ∈ p_app_cmds (sys_body pr s o k last) -> x ∈ p_app_cmds pr.
+Proof.
+  assert (Hnc : forall pr', nocmdq pr' = nocmdq pr -> x ∈ p_app_cmds pr' -> x ∈ p_app_cmds pr).
+  { intros pr' H. apply nocmdq_inv in H as (_ & _ & -> & _). auto. }
+  assert (Hco : forall pr', core pr' = core pr -> x ∈ p_app_cmds pr' -> x ∈ p_app_cmds pr).
+  { intros pr' H. rewrite (core_app _ _ H). auto. }
+  assert (Hnu : forall pr', nou2e pr' = nou2e pr -> x ∈ p_app_cmds pr' -> x ∈ p_app_cmds pr).
+  { intros pr' H. apply nou2e_inv in H as (_ & _ & -> & _). auto. }
+  assert (Hfi : forall pr', fixed pr' = fixed pr -> x ∈ p_app_cmds pr' -> x ∈ p_app_cmds pr).
+  { intros pr' H. apply fixed_inv in H as (_ & _ & -> & _). auto. }
+  destruct s; simpl;
+    try (intros H; exact H);
+    try (apply Hnc, fix_system_nocmdq);
+    try (apply Hco; first [apply react_assets_core|apply process_assets_core]).
+  - apply Hnu, entity_removed_server_nou2e.
+  - apply Hfi, entity_created_fixed.
+  - apply Hco, entity_parented_server_core.
+  - apply Hco, react_components_core.
+  - apply Hco, promote_reader_core.
+  - apply Hnc, client_connected_nocmdq.
+  - assert (He : p_app_cmds (server_poll pr k (fo_srv_poll o)) = p_app_cmds pr).
+    { apply (server_poll_inv (fun a => p_app_cmds a = p_app_cmds pr) (fun _ => True)); try reflexivity.
+      - intros a _ ? ? ? _ _. exact I.
+      - intros a from m rest_ Ha _. exact Ha.
+      - intros a from m Ha _.
+        pose proof (pollfixed_inv _ _ (server_received_pollfixed a k from m)) as (_ & _ & Hx & _).
+        rewrite Hx. exact Ha. }
+    rewrite He. auto.
+  - apply Hnc, verify_nocmdq.
+  - apply Hnu, entity_removed_client_nou2e.
+  - apply Hfi, entity_created_fixed.
+  - apply Hco, entity_parented_client_core.
+  - apply Hco, react_components_core.
+  - destruct (n_cli_transport pr) as [[h t]|]; [|auto].
+    assert (He : p_app_cmds (client_poll pr k h (fo_cli_poll o)) = p_app_cmds pr).
+    { apply (client_poll_inv (fun a => p_app_cmds a = p_app_cmds pr) (fun _ => True)); try reflexivity.
+      - intros a _ ? ? ? _ _. exact I.
+      - intros a from m rest_ Ha _. exact Ha.
+      - intros a m Ha _.
+        pose proof (pollfixed_inv _ _ (client_received_pollfixed a k m)) as (_ & _ & Hx & _).
+        rewrite Hx. exact Ha. }
+    rewrite He. auto.
+  - apply Hco, sync_detect_core.
+  - intros H.
+    assert (He : p_app_cmds (foldl (fun a y => push_cmd a k y.2)
+                   (pr <| p_app_cmds := filter (fun y : N * cmd => negb (y.1 =? k0)) (p_app_cmds pr) |>)
+                   (filter (fun y : N * cmd => y.1 =? k0) (p_app_cmds pr)))
+                 = filter (fun y : N * cmd => negb (y.1 =? k0)) (p_app_cmds pr)).
+    { apply (foldl_inv (fun a => p_app_cmds a = filter (fun y : N * cmd => negb (y.1 =? k0)) (p_app_cmds pr)));
+        [reflexivity|]. intros a y _ Ha. exact Ha. }
+    rewrite He in H. apply elem_of_list_filter in H as [_ H]. exact H.
+Qed.
+
+Lemma GI_weaken b (P P' : cmd -> Prop) (M : msg -> Prop) pr :
+  (forall c, P c -> P' c) -> GI b P M pr -> GI b P' M pr.
+Proof.
+  intros HP (H1 & H2 & H3 & H4). split; [|split; [|split; [exact H3|exact H4]]].
+  - intros k cs c Hl Hin. apply HP. eapply H1; eassumption.
+  - intros x Hx. apply HP. apply H2. exact Hx.
 Qed.
